@@ -30,7 +30,7 @@ PROP = {
         {"mon": "mon_c01", "cfg": "plain", "cases": _q(40000, 1600000)},
         {"mon": "mon_c01", "cfg": "hp", "cases": _q(20000, 800000), "seed_off": 1000003},
         {"mon": "mon_c01", "cfg": "portable", "cases": _q(0, 400000), "seed_off": 2000003},
-        {"mon": "mon_c01", "cfg": "plain", "cases": _q(7 * 64, 7 * 64), "args": ["--mode", "deep"], "seed_off": 5},
+        {"mon": "mon_c01", "cfg": "plain", "cases": _q(7 * 128, 7 * 128), "args": ["--mode", "deep"], "seed_off": 5},
         {"mon": "mon_c01", "cfg": "plain", "cases": _q(0, 27), "shards": 16, "args": ["--mode", "deep", "--deep_thorough", "1", "--case_timeout", "1500"], "seed_off": 6},
         {"mon": "mon_c01", "cfg": "cov", "cases": _q(0, 30000), "seed_off": 3000003, "shards": 4, "env": _cov.env_for("mon_c01")},
     ],
